@@ -346,7 +346,7 @@ Definition fkind_eqb (a b : fkind) : bool :=
   | FU x, FU y | FBytes x, FBytes y | FArr16 x, FArr16 y => Nat.eqb x y
   | FVar16Max x, FVar16Max y => x =? y
   | FPoint, FPoint | FVar16, FVar16 | FBool, FBool | FFeat, FFeat
-  | FAlias, FAlias | FAddrs, FAddrs | FBigSize, FBigSize
+  | FAlias, FAlias | FAddrs, FAddrs | FBigSize, FBigSize | FScids, FScids
   | FRest, FRest | FTlvRest, FTlvRest => true
   | _, _ => false
   end.
